@@ -269,8 +269,10 @@ class Run:
               "coverage": cov, "assumptions": self.assumptions, "wall_s": round(wall, 1),
               "violations": len(self.violations),
               "known_findings_observed": [k[0] for k in self.known]}
-        os.makedirs(os.path.join(VERIF, "evidence"), exist_ok=True)
-        with open(os.path.join(VERIF, "evidence", self.prop + ".json"), "w") as f:
+        # evidence is about /repo only: a run against a scratch copy (VERIF_REPO, development aid) leaves it alone
+        evdir = os.path.join(VERIF, "evidence") if REPO == "/repo" else os.path.join(os.environ.get("VERIF_TMP", "/var/tmp"), "verif-evidence-scratch")
+        os.makedirs(evdir, exist_ok=True)
+        with open(os.path.join(evdir, self.prop + ".json"), "w") as f:
             json.dump(ev, f, indent=1)
         for fid, what in self.known:
             print("KNOWN-FINDING: property=%s %s (%s)" % (self.prop, what, fid))
